@@ -186,7 +186,8 @@ fn check_pair(v: &V, w: &V, form: &str, acc: &mut Acc) {
     // (1) same ordered scalar type: trichotomy in the native order, <= and >= derived
     if let Some(o) = ordered_same(v, w) {
         use std::cmp::Ordering::*;
-        let want = [("peq", o == Equal), ("plt", o == Less), ("pgt", o == Greater), ("ple", o != Greater), ("pge", o != Less), ("pne", o != Equal)];
+        // (prefix `not` on comparable values is the complement: on equal values `not <` and `not >` hold)
+        let want = [("peq", o == Equal), ("plt", o == Less), ("pgt", o == Greater), ("ple", o != Greater), ("pge", o != Less), ("pne", o != Equal), ("nlt", o != Less), ("ngt", o != Greater), ("nle", o == Greater), ("nge", o == Less)];
         for (n, b) in want {
             if pass(n) != b {
                 bad("order", format!("{} should be {}", n, if b { "PASS" } else { "FAIL" }));
